@@ -127,7 +127,9 @@ CLAIMED = {
          "Functional determinism clauses: Refresh creates in strictly ascending name order whatever order GetMetas enumerates (its contract "
          "leaves the order unconstrained), proved via the sort contract; filterDependencies' result is a function of the candidate SET "
          "except within genuinely tied candidates ([unique-primary-wins], [unique-unnamed-wins], [tie-stays-in-best-class]) and never selects "
-         "the holder itself ([self-never-beats-other], the repaired F-C10).",
+         "the holder itself ([self-never-beats-other], the repaired F-C10); the singleton registry never lets the second of two different components "
+         "under one name return normally ([duplicate-name-rejected], relative to A-LOG-PANIC: Logger.Panicf does not return), so which one is "
+         "kept cannot depend on registration order.",
          "DESIGN.md section 5 C10",
          "contract-based deductive verification (govc WP over go/ssa, z3/cvc5)",
          "Commutativity of two different post-processors with equal class and Order, the order of elements inside an injected slice, and the "
